@@ -604,19 +604,34 @@ func containerMismatch(c *explore.Ctx) {
 			c.Fail("container-mismatch:filled:"+name, "the mismatching container was decoded into the target: %+v for %s", m, desc)
 		}
 	}
-	// strict decoding reports the mismatch
-	var serr error
-	var out mismT
-	if pv, ps := explore.Catch(func() {
-		d := thrift.NewDecoder(impl(p).NewReader(bytes.NewReader(in)))
-		d.SetStrict(true)
-		serr = d.Decode(&out)
-	}); pv != nil {
-		c.Fail("container-mismatch:strict:panic:"+ps, "strict Decode panics: %v for %s", pv, desc)
-	} else {
-		var tm *thrift.TypeMismatch
-		if !errors.As(serr, &tm) {
-			c.Fail("container-mismatch:strict:not-reported:"+name, "strict Decode returns %v, want a TypeMismatch, for %s", serr, desc)
+	// strict decoding reports the mismatch - also through a Decoder that is Reset onto the input after
+	// SetStrict, or made strict after a Reset
+	for mode, how := range []string{"fresh decoder", "SetStrict then Reset", "Reset then SetStrict"} {
+		var serr error
+		var out mismT
+		if pv, ps := explore.Catch(func() {
+			var d *thrift.Decoder
+			switch mode {
+			case 0:
+				d = thrift.NewDecoder(impl(p).NewReader(bytes.NewReader(in)))
+				d.SetStrict(true)
+			case 1:
+				d = thrift.NewDecoder(impl(p).NewReader(bytes.NewReader(nil)))
+				d.SetStrict(true)
+				d.Reset(impl(p).NewReader(bytes.NewReader(in)))
+			case 2:
+				d = thrift.NewDecoder(impl(p).NewReader(bytes.NewReader(nil)))
+				d.Reset(impl(p).NewReader(bytes.NewReader(in)))
+				d.SetStrict(true)
+			}
+			serr = d.Decode(&out)
+		}); pv != nil {
+			c.Fail("container-mismatch:strict:panic:"+ps, "strict Decode (%s) panics: %v for %s", how, pv, desc)
+		} else {
+			var tm *thrift.TypeMismatch
+			if !errors.As(serr, &tm) {
+				c.Fail("container-mismatch:strict:not-reported:"+how+":"+name, "strict Decode (%s) returns %v, want a TypeMismatch, for %s", how, serr, desc)
+			}
 		}
 	}
 	c.NontrivialStr("mism", p.String(), name, fmt.Sprint(n, itemKind))
